@@ -238,3 +238,18 @@ Definition one_read_section (tol : lk_event -> bool) (f l : string) : bool :=
 Definition never_writes (f l : string) : bool :=
   forallb (fun s => negb (writes l (snd s)))
           (filter (fun p => String.eqb (fst p) f || String.prefix (f ++ "@") (fst p)) lock_skeletons).
+
+(* ---- the lock-skeleton facts the reload theorem (C06) rests on ---- *)
+Definition reload_skeleton_check : bool :=
+  (* the swap: ONE critical section under the write lock of the main table (parameter a) that contains its writes *)
+  one_write_section "pfx_table_swap" "a" && one_write_section "spki_table_swap" "a" &&
+  (* reader operations: one critical section, no write *)
+  one_read_section no_tol "pfx_table_validate_r" "pfx_table" && one_read_section no_tol "pfx_table_validate" "pfx_table" &&
+  one_read_section no_tol "spki_table_get_all" "spki_table" && one_read_section no_tol "spki_table_search_by_ski" "spki_table" &&
+  (* building the shadow tables and computing the difference never write the main table *)
+  never_writes "pfx_table_copy_except_socket" "src_table" && never_writes "spki_table_copy_except_socket" "src" &&
+  never_writes "pfx_table_notify_diff" "new_table" && never_writes "spki_table_notify_diff" "new_table" &&
+  (* ... and the translator produced paths for all of them *)
+  negb (match paths_of "pfx_table_copy_except_socket", paths_of "spki_table_copy_except_socket", paths_of "spki_table_notify_diff" with
+        | _ :: _, _ :: _, _ :: _ => false | _, _, _ => true end).
+
